@@ -6,6 +6,7 @@ import (
 	"errors";
 	"io";
 	"context";
+	"time";
 
 	pb "github.com/marekgalovic/anndb/protobuf";
 	"github.com/marekgalovic/anndb/cluster";
@@ -80,18 +81,53 @@ func (this *NodesManager) ListNodes() map[uint64]string {
 	return this.clusterConn.Nodes()
 }
 
-func (this *NodesManager) AddNode(id uint64, address string) (map[uint64]string, error) {
-	if err := this.zeroGroup.ProposeJoin(id, address); err != nil {
+func (this *NodesManager) AddNode(ctx context.Context, id uint64, address string) (map[uint64]string, error) {
+	if _, known := this.clusterConn.Nodes()[id]; known {
+		// A member that moved may be needed for the quorum that commits its new address
+		this.clusterConn.AddNode(id, address)
+	}
+
+	err := this.proposeUntilApplied(ctx, id,
+		func() error { return this.zeroGroup.ProposeJoin(id, address) },
+		func(change membershipChange) bool { return !change.removed && change.address == address },
+	)
+	if err != nil {
 		return nil, err
 	}
 
-	nodes := this.clusterConn.Nodes()
-	nodes[id] = address
-	return nodes, nil
+	return this.clusterConn.Nodes(), nil
 }
 
-func (this *NodesManager) RemoveNode(id uint64) error {
-	return this.zeroGroup.ProposeLeave(id)
+func (this *NodesManager) RemoveNode(ctx context.Context, id uint64) error {
+	return this.proposeUntilApplied(ctx, id,
+		func() error { return this.zeroGroup.ProposeLeave(id) },
+		func(change membershipChange) bool { return change.removed },
+	)
+}
+
+// Raft silently drops a membership change that is proposed while another one is still pending,
+// so a change is acknowledged only once this node has applied it, and proposed again until then.
+func (this *NodesManager) proposeUntilApplied(ctx context.Context, id uint64, propose func() error, isApplied func(membershipChange) bool) error {
+	seq := this.zeroGroup.lastMembershipChange(id).seq
+	for {
+		if err := propose(); err != nil {
+			return err
+		}
+
+		retry := time.After(time.Second)
+		for waiting := true; waiting; {
+			if change := this.zeroGroup.lastMembershipChange(id); change.seq > seq && isApplied(change) {
+				return nil
+			}
+			select {
+			case <-ctx.Done():
+				return ctx.Err()
+			case <-retry:
+				waiting = false
+			case <-time.After(10 * time.Millisecond):
+			}
+		}
+	}
 }
 
 func (this *NodesManager) tryJoin(ctx context.Context, address string) error {
